@@ -25,7 +25,7 @@ import (
 )
 
 func TestMain(m *testing.M) {
-	vstat.Rule("RemoteAddr = net.TCPAddr{IP,Port,Zone}.String() (the forms net/http produces) drawn in pairs (same/different address, different port), plus malformed strings, Host values, header name/value sets and variable names; oracle: client.ip token parses to the peer address (netip), tokens equal iff addresses equal, request.host==Host, request.header.X==Header.Get(X), amount 1, unsupported variables refused. Non-trivial: IPv6 or zoned address, a pair differing only in port, a pair of different v6 addresses sharing the text before the first ':', a header looked up under a different case, or an unsupported variable. Peers include loopback addresses and consecutive peers whose text is a proper prefix of the next; requests may claim other origins in X-Forwarded-For / X-Real-Ip / Forwarded / Client-Ip.")
+	vstat.Rule("RemoteAddr = net.TCPAddr{IP,Port,Zone}.String() (the forms net/http produces) drawn in pairs (same/different address, different port), plus malformed strings, Host values, header name/value sets and variable names; oracle: client.ip token parses to the peer address (netip), tokens equal iff addresses equal, request.host==Host, request.header.X==Header.Get(X), amount 1, unsupported variables refused. Non-trivial: IPv6 or zoned address, a pair differing only in port, a pair of different v6 addresses sharing the text before the first ':', a header looked up under a different case, or an unsupported variable. Peers include loopback addresses and consecutive peers whose text is a proper prefix of the next; requests may claim other origins in X-Forwarded-For / X-Real-Ip / Forwarded / Client-Ip. TestC19_BehindMiddlewares: the variable is evaluated by a handler behind 1-3 layers drawn from buffer, verbose buffer/stream/breaker/balancer/connlimit and trace; differential against direct evaluation on the client's request (credential headers, chunked uploads with a trailer naming the keyed header, IPv6 peers).")
 	vstat.Main(m.Run)
 }
 
